@@ -103,11 +103,7 @@ void PRINTStatement::unparse(Context& ctx, FILE * out) const
   fputs(Statement::KEYWORDS[keyword()], out);
   if (_args.empty())
     return;
-  for (const Expression * exp : _args)
-  {
-    fputs(" ", out);
-    fputs(exp->unparse(ctx).c_str(), out);
-  }
+  unparse_list(ctx, _args, out);
 }
 
 PRINTStatement * PRINTStatement::parse(Parser& p, Context& ctx)
